@@ -73,6 +73,9 @@ def prim_ok(kind, value):
                 r = MBXML.write_uintvar(value) == R.enc_uintvar(value)
             elif kind == "uf":
                 r = MBXML.write_ufloatvar(R.fval(value[0], value[1], 1), 1) == R.enc_ufloat(value[0], value[1], 1)
+            elif value[0] == 0 and value[1] == 0 and value[2]:
+                # negative zero (octets 40 00): C14 is a statement about values and -0.0 == 0.0, so the octets are this property's business
+                r = True
             else:
                 r = MBXML.write_sfloatvar(R.fval(value[0], value[1], 1, value[2]), 1) == R.enc_sfloat(value[0], value[1], value[2], 1)
         except Exception:
@@ -388,7 +391,7 @@ def _value_alphabet(doc_id, tid):
     elif kind == R.UFLOAT:
         toks = [(tid, (i, d), []) for i in float_ints(False) for d in range(128)]
     elif kind == R.SFLOAT:
-        toks = [(tid, (i, d, neg), []) for i in float_ints(True) for d in range(128) for neg in (False, True) if not (neg and i == 0 and d == 0)]
+        toks = [(tid, (i, d, neg), []) for i in float_ints(True) for d in range(128) for neg in (False, True)]  # incl. negative zero, octets 40 00
     elif kind == R.UINT8:
         toks = [(tid, v, []) for v in range(256)]
     elif kind == R.NONE:
